@@ -14,6 +14,9 @@ def aircraft_lines(rng, n, lat, lon, spread_km=150):
     for k in range(n):
         addr = 0x4A0000 + k
         la, lo = enc.destination(lat, lon, rng.uniform(0, 360), rng.uniform(1, spread_km))
+        if k % 3 == 1 and out:
+            la, lo = prev  # every third aircraft flies in formation: same 0.01 degree cell (coverage heat map)
+        prev = (la, lo)
         out.append(enc.line(enc.long_frame(17, 5, addr, enc.me_ident(4, 0, "T%05d" % k))))
         out.append(enc.line(enc.long_frame(17, 5, addr, enc.me_airpos(11, 1000 + 25 * rng.randrange(1500), la, lo, False))))
         out.append(enc.line(enc.long_frame(17, 5, addr, enc.me_airpos(11, 1000 + 25 * rng.randrange(1500), la, lo, True))))
@@ -44,7 +47,7 @@ def gen_events(rng, n, rows, cols):
         elif r < 0.90:
             ev.append(("resize",) + rng.choice(SIZES))
         elif r < 0.97:
-            frag = rng.choice([b"\x1b[", b"\x1bO", b"\x1b[<", b"\x1b[<0;", b"\x1b[1;", b"\x1b[200~", b"\x00", b"\xff\xfe", b"\x1b\x1b", bytes(rng.getrandbits(8) for _ in range(rng.randint(1, 12))).replace(b"q", b"x").replace(b"\x03", b"x")])
+            frag = rng.choice([b"\x1b[", b"\x1bO", b"\x1b[<", b"\x1b[<0;", b"\x1b[1;", b"\x1b[200~", b"\x00", b"\xff\xfe", b"\x1b\x1b", bytes(rng.getrandbits(8) for _ in range(rng.randint(1, 12))).replace(b"q", b"x").replace(b"\x03", b"x").replace(b"\x11", b"x")])  # not q, Ctrl-C, Ctrl-Q (= 'q' with a modifier): those are quit requests
             ev.append(("raw", frag))
         else:
             ev.append(("wait", rng.choice([0.05, 0.3, 1.1])))
@@ -170,12 +173,50 @@ def quit_while_waiting(col, binpath, rng, tag, scratch):
         sess.close()
 
 
+def quit_on_reconnect_screen(col, binpath, rng, tag, scratch):
+    """--retry-tcp: the feed disappears and stays away; operator events and quit on the waiting screen."""
+    how = rng.choice(["q", "CtrlC"])
+    lat, lon = 52.0, 4.0
+    lines = aircraft_lines(rng, rng.choice([0, 2, 5]), lat, lon)
+    plan = ([("send", b"".join(lines))] if lines else []) + [("sleep", 1.0), ("close",), ("mark", "closed"), ("sleep", 120)]
+    sess = session.RadarSession(binpath, plan, lat=lat, lon=lon, opts=["--retry-tcp"] + rng.choice([[], ["--touchscreen"]]), rows=30, cols=100, scratch=scratch)
+    inp = {"scenario": "quit while waiting for a reconnect (--retry-tcp, server gone)", "quit": how, "tag": tag}
+    try:
+        sess.wait_connected()
+        end = time.monotonic() + 30
+        while time.monotonic() < end and not sess.srv.marked("closed"):
+            sess.p.pump(0.1)
+        sess.srv.sock.close()  # nothing listens any more: every reconnect attempt is refused
+        sess.p.pump(1.5)
+        if not sess.p.alive():
+            col.add("C17", f"C17|terminated_before_quit|reconnect_wait|{sess.panic_location()}", f"with --retry-tcp radar exited (status {sess.p.p.returncode}) when the server went away", inp)
+            return
+        for k in rng.choice([[], ["F3", "Down", "Enter"], ["Tab", "x"], ["F2"]]):
+            sess.key(k)
+            sess.p.pump(0.1)
+        sess.key(how)
+        col.count("sessions")
+        col.cls("session|waiting_for_reconnect")
+        check_exit(col, sess, f"'{how}' while waiting for a reconnect", "reconnect_wait", inp)
+        col.count("quits_checked")
+    finally:
+        sess.close()
+
+
 CLI_CASES = [
     ("locations_two_fields", ["--lat", "1", "--long", "1", "--locations", "(a,1.0)"]),
     ("locations_one_field", ["--lat", "1", "--long", "1", "--locations", "home"]),
     ("locations_empty", ["--lat", "1", "--long", "1", "--locations", ""]),
     ("locations_not_numbers", ["--lat", "1", "--long", "1", "--locations", "(a,b,c)"]),
+    ("locations_two_numbers", ["--lat", "1", "--long", "1", "--locations", "(52.1,4.3)"]),
+    ("locations_four_fields", ["--lat", "1", "--long", "1", "--locations", "(a,1,2,3,x)", "(b,c)"]),
+    ("locations_only_commas", ["--lat", "1", "--long", "1", "--locations", ",,,"]),
+    ("locations_parens", ["--lat", "1", "--long", "1", "--locations", "()"]),
+    ("locations_nan_text", ["--lat", "1", "--long", "1", "--locations", "(x,1e999999x,--)"]),
     ("lat_not_number", ["--lat", "north", "--long", "1"]),
+    ("lat_empty", ["--lat=", "--long", "1"]),
+    ("filter_time_float", ["--lat", "1", "--long", "1", "--filter-time", "1.5"]),
+    ("port_negative", ["--lat", "1", "--long", "1", "--port=-1"]),
     ("long_missing", ["--lat", "1"]),
     ("port_too_big", ["--lat", "1", "--long", "1", "--port", "70000"]),
     ("port_not_number", ["--lat", "1", "--long", "1", "--port", "http"]),
@@ -236,6 +277,8 @@ def main(a, lcol, col, run_all, scratch, START):
         jobs.append((f"session#{i}", lambda rng, i=i, n=n_events: run_session(lcol, a.bin, rng, f"session#{i}", scratch, n)))
     for i in range(24 if thorough else 4):
         jobs.append((f"waiting#{i}", lambda rng, i=i: quit_while_waiting(lcol, a.bin, rng, f"waiting#{i}", scratch)))
+    for i in range(16 if thorough else 4):
+        jobs.append((f"reconnect#{i}", lambda rng, i=i: quit_on_reconnect_screen(lcol, a.bin, rng, f"reconnect#{i}", scratch)))
     for name, args in CLI_CASES:
         jobs.append((f"cli/{name}", lambda rng, name=name, args=args: cli_case(lcol, a.bin, name, args, scratch)))
     if a.replay:
